@@ -10,6 +10,7 @@ from .expr import *  # noqa
 from .stmt import *  # noqa
 from . import lib as _lib
 from . import absobj as _abs
+from .expr import to_int as _e_to_int
 
 REPO = os.environ.get("KAPPADATA_REPO", "/repo")
 
@@ -70,6 +71,7 @@ class Engine(ExprMixin, StmtMixin):
         self.builtins = _lib.make_builtins(self)
         self.spec_builtins = _lib.make_spec_builtins(self)
         self.depth = 0
+        self.join_mode = 0
         _abs.install_spec_builtins(self)
 
     # ------------------------------------------------------------------ modules / classes
@@ -129,6 +131,9 @@ class Engine(ExprMixin, StmtMixin):
                 return VFunc(dotted, h)
             if dotted in _lib.LIB_CLASSES:
                 return VClass(dotted)
+            if dotted in _lib.LIB_OBJECTS:
+                self.used_trusted.add(f"lib:{dotted}")
+                return _lib.LIB_OBJECTS[dotted]()
             return VModule(dotted)
         if name in m.globals:
             return self.ev1_plain(m.globals[name])
@@ -160,7 +165,7 @@ class Engine(ExprMixin, StmtMixin):
 
         def fn(args, kwargs, st, eng):
             c = eng.contracts.get(key)
-            if c is not None and eng.depth > 0 and not c.get("inline"):
+            if c is not None and not c.get("inline"):
                 return eng.call_contract(c, fi, None, args, kwargs, st)
             return eng.inline(fi, None, args, kwargs, st)
         return VFunc(key, fn)
@@ -235,7 +240,7 @@ class Engine(ExprMixin, StmtMixin):
 
         def fn(args, kwargs, s, eng, fi=fi, key=key):
             c = eng.contracts.get(key)
-            if c is not None and not c.get("inline") and not (eng.depth == 0):
+            if c is not None and not c.get("inline"):
                 return eng.call_contract(c, fi, ref, args, kwargs, s)
             return eng.inline(fi, ref, args, kwargs, s)
         if "property" in decos:
@@ -467,6 +472,21 @@ class Engine(ExprMixin, StmtMixin):
             result = st.alloc(result)
         return [(st, result)]
 
+    def induction(self, st, name, var, lo, hi, prop, env, node):
+        """mathematical induction over lo <= var <= hi: base and step are obligations, the universally
+        quantified conclusion is then assumed"""
+        lo_t, hi_t = _e_to_int(self.spec_val(lo, st, env)), _e_to_int(self.spec_val(hi, st, env))
+        base = self.spec_bool(prop, st, dict(env, **{var: VInt(lo_t)}))
+        self.oblige(st, f"{name}:base", "vc", z3.Implies(lo_t <= hi_t, base), node, note=f"{prop} at {var}={lo}")
+        k = z3.Int(uid(var))
+        pk = self.spec_bool(prop, st, dict(env, **{var: VInt(k)}))
+        pk1 = self.spec_bool(prop, st, dict(env, **{var: VInt(k + 1)}))
+        self.oblige(st, f"{name}:step", "vc", z3.Implies(z3.And(lo_t <= k, k < hi_t, pk), pk1), node,
+                    note=f"{prop}: {var} -> {var}+1")
+        q = z3.Int(uid(var))
+        st.assume(z3.ForAll([q], z3.Implies(z3.And(lo_t <= q, q <= hi_t),
+                                            self.spec_bool(prop, st, dict(env, **{var: VInt(q)})))))
+
     # ------------------------------------------------------------------ top level
     def make_value(self, T_, name, st):
         if isinstance(T_, TObj):
@@ -573,6 +593,8 @@ class Engine(ExprMixin, StmtMixin):
             if oc[0] in (RET, NEXT):
                 rv = oc[1] if oc[0] == RET else NONEV
                 n_normal += 1
+                for i, (var, lo, hi, prop) in enumerate(c.get("post_inductions", [])):
+                    self.induction(s, f"post-induction{i}", var, lo, hi, prop, {"result": rv}, fi.node)
                 for i, e in enumerate(c.get("ensures", [])):
                     self.prove(s, f"ensures{i}", e, {"result": rv}, fi.node)
             elif oc[0] == RAISE:
